@@ -58,6 +58,23 @@ claim("C20",
       "Trusted: Lean kernel; axioms ⊆ {propext, Classical.choice, Quot.sound}; std BTreeMap ascending iteration (modelled as stable sort); fresh processes for seed variation.",
       "Lean 4 proof (sorted-permutation uniqueness) + multi-process differential oracle")
 
+claim("C06",
+      "PARTIAL proof. Lean 4 theorem analysis_covers_fields: for every expression form, every data field read anywhere in it is the root of a path recorded by the "
+      "model of the dependency analysis of to_proc_gen_rec (mutual induction over the AST incl. the main/spread accumulator of array literals); the analysis model and "
+      "its printers are tied to the implementation by byte-equality of the guard and template-data tree expressions. The value-level statement is checked by the "
+      "oracle: create;update…(trees covering the diff by construction: exact/coarsened/true) vs fresh create under the real ProcGenWrapper/RangeListManager.",
+      "Trusted: Lean kernel; axioms ⊆ {propext, Classical.choice, Quot.sound}; harness hook proc_gen_expr; node runner + stub backend; oracle-built update trees. "
+      "guard_sound / update_refines are NOT proved yet (oracle only); RangeListManager is executed, not modelled.",
+      "Lean 4 proof (partial: dependency-root coverage) + update-vs-create oracle under the real runtime")
+claim("C07",
+      "PARTIAL proof. Lean 4 theorems about the model of BindingMapCollector as a state machine over add/disable/disable_all: advertised_iff (advertised iff collected, never "
+      "disabled, map not disabled — in any order), disabled_stays_disabled, size_eq_count; model tied by differential runs through a cfg hook. Oracle: for every advertised "
+      "field, running exactly its updaters equals a fresh creation; fields read in dynamic subtrees / structural positions (independent analysis of the abstract "
+      "template) are never advertised.",
+      "Trusted: Lean kernel; axioms ⊆ {propext, Classical.choice, Quot.sound}; differential tie; independent use-site analysis; node runner. That the tag traversal reports every "
+      "unreachable use as disable_field is established by the oracle only.",
+      "Lean 4 proof (state-machine invariants by induction over operation sequences) + binding-map-vs-create oracle")
+
 ALL = ["C%02d" % i for i in range(1, 21)]
 
 def main():
